@@ -14,7 +14,7 @@ NUM_AGGS = ['sum', 'avg', 'median', 'max', 'min', 'first', 'last', 'count', 'cou
 TXT_AGGS = ['sum', 'max', 'min', 'first', 'last', 'count', 'counters', 'set', 'array', 'any']
 KEYS_SRC = ['a', 'b', None]
 KEYS_TGT = ['a', 'c', None]
-NUMV = [1, 2, None]
+NUMV = [1, 0, None, -1]
 TXTV = ['x', 'y', None]
 
 
@@ -278,6 +278,8 @@ def cases(tier):
             for t in tgts:
                 for mode in ('inner', 'half-outer', 'full-outer'):
                     for shape in shapes:
+                        if tier == 'quick' and shape != 'list' and (len(s) == 2 and len(t) == 2):
+                            continue        # quick: the other key shapes on tables with at most 3 rows in total
                         out.append({'u': u, 'src': s, 'tgt': t, 'mode': mode, 'shape': shape})
         # config axes around the base configuration
         for s in srcs:
